@@ -32,11 +32,11 @@ open BioCantor.Spec.Cache (Ev Ans CdsOp)
 
 /-- cds.py:456-459 — does the cached-codon path of `extract_sequence` wrap its result in a `Sequence`?
     `false` on the pinned tree (F-C10a). -/
-def pathBWrapsAsCoded : Bool := true
+def pathBWrapsAsCoded : Bool := false
 
 /-- gene/interval.py:780 — does `_merge_qualifiers` copy the qualifier SETS (not only the dict)?
     `false` on the pinned tree (F-C10b). -/
-def mergeCopiesSetsAsCoded : Bool := true
+def mergeCopiesSetsAsCoded : Bool := false
 
 def pureF (k : Int) : Int := 3 * k + 1
 def pureM (o k : Int) : Int := 100 * o + k
